@@ -336,6 +336,25 @@ fn gen_check(rep: &Report, ck: &str, c: &GenCase, exhaustive_k: bool) -> CheckRe
             }
         }
     }
+    // one buffer for the interface identifier, edited in place between two requests on this thread (same address and
+    // length, another identifier): the second set is the set of the second identifier, whatever was asked before
+    for s in [SuiteId::Sha256, SuiteId::Shake256] {
+        let r = crate::refimpl::Ref::new(s);
+        let mut id: Vec<u8> = format!("APP_{}_V1_", c.n).into_bytes();
+        let n = c.n.min(12);
+        let refset = |v: &Vec<u8>| -> Vec<[u8; 48]> { r.create_generators(n, v).map(|g| g.iter().map(|p| p.to_affine().to_compressed()).collect()).unwrap_or_default() };
+        let first = refset(&id);
+        let view = |v: &Vec<u8>| -> Vec<[u8; 48]> { with_suite!(s, CS => Generators::create::<CS>(n, Some(&v[..])).values.iter().map(|p| p.to_affine().to_compressed()).collect()) };
+        let a1 = view(&id);
+        let at = id.len() - 2;
+        id[at] = b'2';
+        let a2 = view(&id);
+        let want = refset(&id);
+        rep.eval(ck, 2);
+        if a1 != first || (n > 0 && a2 == a1) || a2 != want {
+            return rep.fail(ck, "generators:identifier-buffer-reused", format!("create({}, id) under {} with the identifier edited in place between two requests (..V1_ -> ..V2_): the second set is {} the first and {} the reference's set for the second identifier", n, s.name(), if a2 == a1 { "equal to" } else { "different from" }, if a2 == want { "equal to" } else { "different from" }), cj());
+        }
+    }
     rep.nontrivial(ck, c);
     rep.class(&format!("generators:n={}", if c.n <= 16 { "2..16" } else if c.n <= 64 { "17..64" } else { ">64" }));
     rep.sample(ck, json!({"gen": c}));
@@ -371,7 +390,7 @@ pub fn run(ctx: &Ctx, rep: &Report) -> Meta {
         rule: "(a) honest plain signature / plain proof / commitment / blind signature / blind proof under suite s, each handed to every verifier of the other suite (same key octets and the key derived from the same material) \
                and to the other interface of the same suite in every consistent presentation (L = all / 0 / None / L-1, trailing messages as committed, blinding slot filled, combined lists); the blind signature and blind proof issued WITHOUT a commitment handed to the plain verifiers (also right after the blind verifier accepted the same octets), a plain signature offered as such a blind signature; oracle: Err; \
                (b) generator requests (n <= 64 quick / 512 thorough, api_ids {None, empty, plain, blind, BLIND_-prefixed, random ASCII}, both suites): create(n,a)[..k] = create(k,a) (all k for the exhaustive list, sampled otherwise), \
-               no identity, no P1 of either suite, no G1 base point, no repetition, sets of different (suite, api_id) disjoint, None = empty api_id; \
+               an identifier buffer edited in place between two requests gives the set of the second identifier (compared with the reference); no identity, no P1 of either suite, no G1 base point, no repetition, sets of different (suite, api_id) disjoint, None = empty api_id; \
                an honest commitment validated through deserialize_and_validate_commit under nine foreign interface identifiers (plain, other suite, empty, custom, padded to 200 / 251 / 252 / 255 / 300 octets); prepare_parameters compared with create(L, a) ++ create(M, BLIND_ || a) for every api_id spelling; generator requests under contention; non-trivial = a cross pair with (s', i') != (s, i) or a generator request with n >= 2; evaluations = foreign verifications + set judgements"
             .into(),
         assumptions: vec!["a refusal by panic of blind_proof_verify on a foreign proof counts as rejection here (C08 reports it)".into()],
